@@ -29,6 +29,7 @@ func init() {
 	stdSpecs["sort.Strings"] = specSortStrings
 	ghostSorts["G_lines"] = "(Array Int Int)"
 	ghostSorts["G_held"] = "(Array Int Bool)"
+	ghostSorts["G_wbytes"] = "(Array Int (Array Int Int))"
 	for _, m := range []string{"(*sync.Mutex)", "(*sync.RWMutex)"} {
 		stdSpecs[m+".Lock"] = specLock
 		stdSpecs[m+".Unlock"] = specUnlock
@@ -323,6 +324,20 @@ func (fr *frame) ioInvoke(c *ssa.CallCommon, st *state, pos string) ([]T, bool) 
 		err := fr.freshOf("w_err", c.Signature().Results().At(1).Type(), st)
 		vc.assume(st.reach, fmt.Sprintf("(and (<= 0 %s) (<= %s (s_len %s)) (=> (= %s 0) (= %s (s_len %s))))", n.S, n.S, p.S, err.S, n.S, p.S))
 		cur := vc.ghostGet(st, "G_written", w.S)
+		if vc.logWrites {
+			// content of the written stream: wrote(w, q) for the positions just appended (contracts that mention wrote())
+			vc.regHeap("G_wbytes", ghostSorts["G_wbytes"])
+			curN := vc.define("w_cur", "Int", cur)
+			oldW := vc.heapGet(st, "G_wbytes")
+			inner := vc.declareConst("w_bytes", "(Array Int Int)")
+			ps := vc.nameConst("w_p", "Slice", p.S)
+			h := vc.heapGet(st, vc.heapArr("Int"))
+			vc.assume(st.reach, fmt.Sprintf("(forall ((q Int)) (! (=> (and (<= %s q) (< q (+ %s %s))) (= (select %s q) %s)) :pattern ((select %s q))))",
+				curN, curN, n.S, inner, vc.at("Int", h, ps, fmt.Sprintf("(- q %s)", curN)), inner))
+			vc.assume(st.reach, fmt.Sprintf("(forall ((q Int)) (! (=> (< q %s) (= (select %s q) (select (select %s %s) q))) :pattern ((select %s q))))",
+				curN, inner, oldW, w.S, inner))
+			vc.heapSet(st, "G_wbytes", fmt.Sprintf("(store %s %s %s)", oldW, w.S, inner))
+		}
 		vc.ghostSet(st, "G_written", w.S, fmt.Sprintf("(+ %s %s)", cur, n.S))
 		return []T{n, err}, true
 	case "(io.Reader).Read":
@@ -356,6 +371,10 @@ func ioInvokeWrites(c *ssa.CallCommon, vc *VC) (map[string]bool, bool) {
 	switch c.Method.FullName() {
 	case "(io.Writer).Write":
 		vc.regHeap("G_written", ghostSorts["G_written"])
+		if vc.logWrites {
+			vc.regHeap("G_wbytes", ghostSorts["G_wbytes"])
+			return map[string]bool{"G_written": true, "G_wbytes": true}, true
+		}
 		return map[string]bool{"G_written": true}, true
 	case "(io.Reader).Read":
 		vc.regHeap("G_consumed", ghostSorts["G_consumed"])
